@@ -14,6 +14,7 @@ CONSTANTS
  AnisoPairs = FALSE
  AnisoRewind = FALSE
  AnisoDupFaces = 8
+ LifeMaxPre = 2
 SPECIFICATION Spec
 VIEW View
 INVARIANT TypeOK
